@@ -240,8 +240,8 @@ fn c10_a_named_wide() {
     assert!(g.src == EV && g.idx == 3 && g.name == pack(b"d") && g.name_len == 1 && g.method == M_F64 && g.len == 0, "C10: f32 goes through record_f64");
     let got = g.val as u64;
     if d.is_nan() {
-        // NaN stays NaN with the same sign and payload (the quiet bit may be set by the conversion)
-        assert!(got | (1u64 << 51) == f32_bits_widened(d) | (1u64 << 51), "C10: f32 NaN widened with sign and payload");
+        // the bit pattern of a NaN produced by a numeric cast is unspecified in Rust: NaN must stay NaN
+        assert!(f64::from_bits(got).is_nan(), "C10: f32 NaN stays NaN");
     } else {
         assert!(got == f32_bits_widened(d), "C10: f32 widened exactly");
     }
@@ -397,47 +397,31 @@ fn c10_a_sigils() {
     kani::cover!(m.d == b'x' && n.g == b'?');
 }}
 
-hx! {
-/// same form with formatting cut: the right field, record_debug, once (call sequence only)
-fn c10_a_sigils_calls() {
-    let m = any_mk();
-    let n = any_mk();
-    let x: u8 = kani::any();
-    let emit = || tracing::event!(Level::INFO, ?m, x, %n, a = ?n, b = %m);
-    twice!(emit());
-    assert!(events() == 1);
-    expect!(
-        dbg(EV, 0, "m", &[]),
-        ent(EV, 1, "x", M_U64, x as u128, 0),
-        dbg(EV, 2, "n", &[]),
-        dbg(EV, 3, "a", &[]),
-        dbg(EV, 4, "b", &[]),
-    );
-    kani::cover!(x == 7);
-}}
-
 struct Pm { f: Mk, g: Mk }
 
 ht! {
-/// sigils on dotted shorthand (`?p.f`, `%p.g`) and as the only field
+/// sigils on dotted shorthand (`?p.f`, `%p.g`)
 fn c10_a_sigils_dotted() {
     let p = Pm { f: any_mk(), g: any_mk() };
-    let emit = || {
-        tracing::event!(Level::INFO, ?p.f, %p.g);
-        tracing::event!(Level::INFO, %p.f);
-    };
-    first_hit_setup();
-    emit();
-    let g = enable();
-    emit();
-    drop(g);
-    assert!(events() == 2);
+    let emit = || tracing::event!(Level::INFO, ?p.f, %p.g);
+    twice!(emit());
+    assert!(events() == 1);
     expect!(
         dbg(EV, 0, "p.f", &[p.f.g]),
         dbg(EV, 1, "p.g", &[p.g.d]),
-        dbg(EV, 0, "p.f", &[p.f.d]),
     );
     kani::cover!(p.f.g == b'q');
+}}
+
+ht! {
+/// a sigil shorthand as the only field (the arms without trailing comma)
+fn c10_a_sigil_single() {
+    let m = any_mk();
+    let emit = || tracing::event!(Level::INFO, ?m);
+    twice!(emit());
+    assert!(events() == 1);
+    expect!(dbg(EV, 0, "m", &[m.g]));
+    kani::cover!(m.g == b'q');
 }}
 
 hx! {
@@ -525,23 +509,24 @@ fn c10_a_message_first() {
 }}
 
 ht! {
-/// message only (literal), message with `{:?}` and with an inline capture
-fn c10_a_message_only() {
+/// message only, literal text
+fn c10_a_message_literal() {
+    let emit = || tracing::event!(Level::INFO, "hi");
+    twice!(emit());
+    assert!(events() == 1);
+    expect!(dbg(EV, 0, "message", b"hi"));
+    seen_is(None, HERE, 3, 0, 0, false, 1);
+    kani::cover!(log_len() == 1);
+}}
+
+ht! {
+/// message only, `{:?}` argument and an inline capture
+fn c10_a_message_capture() {
     let m = any_mk();
-    let emit = || {
-        tracing::event!(Level::INFO, "hi");
-        tracing::event!(Level::INFO, "{:?}{m}", m);
-    };
-    first_hit_setup();
-    emit();
-    let g = enable();
-    emit();
-    drop(g);
-    assert!(events() == 2);
-    expect!(
-        dbg(EV, 0, "message", b"hi"),
-        dbg(EV, 0, "message", &[m.g, m.d]),
-    );
+    let emit = || tracing::event!(Level::INFO, "{:?}{m}", m);
+    twice!(emit());
+    assert!(events() == 1);
+    expect!(dbg(EV, 0, "message", &[m.g, m.d]));
     kani::cover!(m.g == b'a');
 }}
 
@@ -616,10 +601,10 @@ fn c10_a_ev_prefix_message() {
 
 // ---- the five level shorthands for events
 
-macro_rules! ev_short {
-    ($mac:ident, $rank:expr, $kv:ident, $sig:ident, $pre:ident, $msg:ident) => {
+macro_rules! ev_short_common {
+    ($mac:ident, $rank:expr, $kv:ident, $pre:ident, $msg:ident) => {
         hx! {
-        /// shorthand, `k = v` first, shorthand and sigil fields after
+        /// shorthand, `k = v` first, then shorthand and sigil fields
         fn $kv() {
             let a: u8 = kani::any();
             let x: i16 = kani::any();
@@ -635,32 +620,6 @@ macro_rules! ev_short {
             );
             seen_is(None, HERE, $rank, 0, 0, false, 4);
             kani::cover!(x < 0);
-        }}
-        ht! {
-        /// shorthand, sigil-first arms (`?x, ..` / `%x`) and shorthand-first arm
-        fn $sig() {
-            let a: u8 = kani::any();
-            let m = any_mk();
-            let emit = || {
-                tracing::$mac!(?m, a = a);
-                tracing::$mac!(%m);
-                tracing::$mac!(a, z = %m);
-            };
-            first_hit_setup();
-            emit();
-            let g = enable();
-            emit();
-            drop(g);
-            assert!(events() == 3);
-            expect!(
-                dbg(EV, 0, "m", &[m.g]),
-                ent(EV, 1, "a", M_U64, a as u128, 0),
-                dbg(EV, 0, "m", &[m.d]),
-                ent(EV, 0, "a", M_U64, a as u128, 0),
-                dbg(EV, 1, "z", &[m.d]),
-            );
-            seen_is(None, HERE, $rank, 0, 0, false, 2);
-            kani::cover!(a == 1);
         }}
         hx! {
         /// shorthand with `name:, target:, parent:` prefixes and braces + message
@@ -681,35 +640,94 @@ macro_rules! ev_short {
             kani::cover!(pk == 1);
         }}
         ht! {
-        /// shorthand, message forms: fields then format string; `target:` + message only
+        /// shorthand, fields then format string with Display and Debug arguments
         fn $msg() {
             let a: i8 = kani::any();
             let m = any_mk();
-            let emit = || {
-                tracing::$mac!(a = a, "{}{:?}", m, m);
-                tracing::$mac!(target: "tg", "w{}", m);
-            };
-            first_hit_setup();
-            emit();
-            let g = enable();
-            emit();
-            drop(g);
-            assert!(events() == 2);
+            let emit = || tracing::$mac!(a = a, "{}{:?}", m, m);
+            twice!(emit());
+            assert!(events() == 1);
             expect!(
                 dbg(EV, 0, "message", &[m.d, m.g]),
                 ent(EV, 1, "a", M_I64, a as i128 as u128, 0),
-                dbg(EV, 0, "message", &[b'w', m.d]),
             );
-            seen_is(None, "tg", $rank, 0, 0, false, 1);
+            seen_is(None, HERE, $rank, 0, 0, false, 2);
             kani::cover!(a < 0);
         }}
     };
 }
-ev_short!(error, 1, c10_a_error_kv, c10_a_error_sigil, c10_a_error_prefix, c10_a_error_msg);
-ev_short!(warn, 2, c10_a_warn_kv, c10_a_warn_sigil, c10_a_warn_prefix, c10_a_warn_msg);
-ev_short!(info, 3, c10_a_info_kv, c10_a_info_sigil, c10_a_info_prefix, c10_a_info_msg);
-ev_short!(debug, 4, c10_a_debug_kv, c10_a_debug_sigil, c10_a_debug_prefix, c10_a_debug_msg);
-ev_short!(trace, 5, c10_a_trace_kv, c10_a_trace_sigil, c10_a_trace_prefix, c10_a_trace_msg);
+ev_short_common!(error, 1, c10_a_error_kv, c10_a_error_prefix, c10_a_error_msg);
+ev_short_common!(warn, 2, c10_a_warn_kv, c10_a_warn_prefix, c10_a_warn_msg);
+ev_short_common!(info, 3, c10_a_info_kv, c10_a_info_prefix, c10_a_info_msg);
+ev_short_common!(debug, 4, c10_a_debug_kv, c10_a_debug_prefix, c10_a_debug_msg);
+ev_short_common!(trace, 5, c10_a_trace_kv, c10_a_trace_prefix, c10_a_trace_msg);
+
+// one further arm family per level (rotating): sigil-first, single sigil, shorthand-first, target + message, parent + sigil
+
+ht! {
+/// error!(?x, k = %y): Debug-sigil-first arm
+fn c10_a_error_sigil_first() {
+    let m = any_mk();
+    let n = any_mk();
+    let emit = || tracing::error!(?m, a = %n);
+    twice!(emit());
+    assert!(events() == 1);
+    expect!(dbg(EV, 0, "m", &[m.g]), dbg(EV, 1, "a", &[n.d]));
+    seen_is(None, HERE, 1, 0, 0, false, 2);
+    kani::cover!(m.g == b'g');
+}}
+
+ht! {
+/// warn!(%x): single Display-sigil arm
+fn c10_a_warn_single_sigil() {
+    let m = any_mk();
+    let emit = || tracing::warn!(%m);
+    twice!(emit());
+    assert!(events() == 1);
+    expect!(dbg(EV, 0, "m", &[m.d]));
+    seen_is(None, HERE, 2, 0, 0, false, 1);
+    kani::cover!(m.d == b'd');
+}}
+
+ht! {
+/// info!(x, k = %y): shorthand-first arm; info!(?x) single Debug sigil
+fn c10_a_info_shorthand_first() {
+    let x: u8 = kani::any();
+    let m = any_mk();
+    let emit = || tracing::info!(x, z = %m);
+    twice!(emit());
+    assert!(events() == 1);
+    expect!(ent(EV, 0, "x", M_U64, x as u128, 0), dbg(EV, 1, "z", &[m.d]));
+    seen_is(None, HERE, 3, 0, 0, false, 2);
+    kani::cover!(x == 0);
+}}
+
+ht! {
+/// debug!(target: "..", "format", arg): prefix + message only
+fn c10_a_debug_target_msg() {
+    let m = any_mk();
+    let emit = || tracing::debug!(target: "tg", "w{}", m);
+    twice!(emit());
+    assert!(events() == 1);
+    expect!(dbg(EV, 0, "message", &[b'w', m.d]));
+    seen_is(None, "tg", 4, 0, 0, false, 1);
+    kani::cover!(m.d == b'0');
+}}
+
+ht! {
+/// trace!(parent: p, ?x, k = v): parent prefix + sigil-first
+fn c10_a_trace_parent_sigil() {
+    let x: u8 = kani::any();
+    let m = any_mk();
+    let (p, pk, pid) = any_parent();
+    let emit = || tracing::trace!(parent: p.clone(), ?m, a = x);
+    twice!(emit());
+    assert!(events() == 1);
+    expect!(dbg(EV, 0, "m", &[m.g]), ent(EV, 1, "a", M_U64, x as u128, 0));
+    seen_is(None, HERE, 5, pk, pid, false, 2);
+    kani::cover!(pk == 2);
+    kani::cover!(pk == 1);
+}}
 
 // ---- spans
 
